@@ -81,10 +81,14 @@ inductive Out | normal | brk | cont | ret | defeat
   deriving DecidableEq, Repr
 
 /-- abstract semantics: every condition may go either way, every loop may run any number of
-times, a defeat call may or may not defeat, terminal calls never come back -/
+times, a defeat call may or may not defeat, terminal calls never come back; and because a defeat
+function may be called in expression position (`n = !f(n);`, `return !f(x);`, `if (!f(x)) …`),
+where the analysis does not see it, *every* statement that evaluates an expression may end in defeat -/
 inductive Exits : Skel → Out → Prop
   | other : Exits .other .normal
+  | otherD : Exits .other .defeat
   | ret : Exits .ret .ret
+  | retD : Exits .ret .defeat
   | brk : Exits .brk .brk
   | cont : Exits .cont .cont
   | defeat : Exits .defeat .defeat
@@ -95,6 +99,8 @@ inductive Exits : Skel → Out → Prop
   | blockNext {s rest o} : Exits s .normal → Exits (.block rest) o → Exits (.block (s :: rest)) o
   | ifT {t e o} : Exits t o → Exits (.ifb t e) o
   | ifE {t e o} : Exits e o → Exits (.ifb t e) o
+  | ifD {t e} : Exits (.ifb t e) .defeat
+  | loopD {tc b k} : Exits (.loop tc b k) .defeat
   | loopSkip {b k} : Exits (.loop false b k) .normal
   | loopBreak {tc b k} : Exits b .brk → Exits (.loop tc b k) .normal
   | loopBody {tc b k o} : Exits b o → (o = .ret ∨ o = .defeat) → Exits (.loop tc b k) o
